@@ -587,6 +587,16 @@ class Evaluator:
             return v
         if T.tag(v) == 'phi' and _has_raise(v):
             return _map_leaves(v, lambda x: x if T.tag(x) == 'raise' else FALL)
+        if getattr(self, 'explicit_contracts', 0) > 0 and T.is_op(v, 'MAP') and len(v) == 7 and _has_raise(v[3]):
+            # inside a `try`: a comprehension whose element computation can raise (a table look-up per character) raises
+            # exactly when some element does - the handler must see that exit
+            kinds = []
+            for x in _leaves_of(v[3]):
+                if T.tag(x) == 'raise' and x[1] not in kinds:
+                    kinds.append(x[1])
+            if len(kinds) == 1:
+                allok = T.raw_op('ALL', T.raw_op('MAP', v[2], _ok_condition(v[3]), v[4], v[5], T.const('list')))
+                return T.phi(allok, FALL, T.raise_(kinds[0]))
         return FALL
 
     def st_Pass(self, st, fr):
@@ -669,6 +679,8 @@ class Evaluator:
             return r
         if r is not FALL:
             v = _strip_raise(v)
+            if T.is_op(v, 'MAP') and len(v) == 7 and _has_raise(v[3]):
+                v = T.raw_op('MAP', v[2], _strip_raise(v[3]), v[4], v[5], v[6])
         self._pending_raise = None
         for t in st.targets:
             self.assign(t, v, fr)
@@ -1259,6 +1271,14 @@ class Evaluator:
                 # in-place growth of a list this iteration built itself (`row = [...]; if c: row.append(x)`)
                 nm = s_.value.func.value.id
                 return nm in fresh_at and fresh_at[nm] < pos
+            if isinstance(s_, ast.Expr) and isinstance(s_.value, ast.Call) and isinstance(s_.value.func, ast.Attribute) \
+                    and isinstance(s_.value.func.value, ast.Name) and s_.value.func.value.id not in fr.env \
+                    and s_.value.func.attr in ('debug', 'info', 'warning', 'error', 'critical', 'log'):
+                # a log record about the element (module-level logger): computing its arguments is all that matters here
+                try:
+                    return T.is_op(self.expr(s_.value.func.value, fr), 'LOGGER')
+                except Exception:
+                    return False
             return isinstance(s_, ast.Pass)
         if not all(simple(s_, i_) for i_, s_ in enumerate(body[:-1])):
             return False
@@ -2801,6 +2821,27 @@ def _raise_split(v, _memo=None):
         memo[i] = (v, r)
         return r
     return v
+
+
+def _ok_condition(v):
+    """the condition under which the case analysis v does not end in a RAISE leaf"""
+    if T.tag(v) == 'raise':
+        return T.FALSE
+    if T.tag(v) != 'phi':
+        return T.TRUE
+    a, b = _ok_condition(v[2]), _ok_condition(v[3])
+    c = v[1]
+    if a == b:
+        return a
+    if a == T.TRUE:
+        return T.or_(c, b)
+    if a == T.FALSE:
+        return T.and_(T.not_(c), b)
+    if b == T.TRUE:
+        return T.or_(T.not_(c), a)
+    if b == T.FALSE:
+        return T.and_(c, a)
+    return T.or_(T.and_(c, a), T.and_(T.not_(c), b))
 
 
 def _strip_raise(v, _memo=None):
